@@ -231,7 +231,8 @@ func runHosts(name string) (rec hRec) {
 
 	site = "Connect(B->A)"
 	if err := connect(b, a); err != nil {
-		rec.Err = "connect: " + err.Error()
+		// a clean peer that cannot connect to a node with an empty ban list is refused wrongly: an observation, not a harness error
+		obs.OffenceErr = sp("connect: " + errStr(err))
 	}
 	obs.ConnectedBefore = bp(poll(time.Second, func() bool { return a.IsConnected(b.ID()) }))
 
